@@ -93,6 +93,128 @@ def chain_lines(text):
     return [int(x) for x in re.findall(r"第 (\d+) 行", text)]
 
 
+# ---- (c) planted faults: programs whose only fault sits at a place known by construction.  The expected report does not come
+# from the evaluator model (which follows the code) but from the construction: the innermost statement that evaluates the
+# faulting expression, and the call statements between it and the program's top level.
+def planted_program(rng):
+    fault, code = rng.choice([(Arith("/", Num(1), Num(0)), 90), (Index(Arr([Num(1)]), Num(5)), 40), (Var("Wundef"), 42)])
+    uid = [0]
+
+    def fresh(p):
+        uid[0] += 1
+        return "%s%d" % (p, uid[0])
+
+    def filler():
+        k = rng.randrange(5)
+        if k == 0:
+            return [ExprS(Str("多行\n文本"))]
+        if k == 1:
+            return [Decl([(False, [fresh("Vf")], Arr([Num(1), Num(2)]))])]
+        if k == 2:
+            return [Display(Num(rng.randrange(100)))]
+        if k == 3:
+            return [Branch(Logic("eq", Num(1), Num(2)), [Display(Num(0))], [], [Display(Num(1))])]
+        return [Decl([(False, [fresh("Vf")], Str("a"))])]
+
+    def fillers(n):
+        out = []
+        for _ in range(rng.randrange(0, n + 1)):
+            out += filler()
+        return out
+    kinds = ["decl", "assign", "expr", "if-cond", "while-cond-first", "while-cond-later", "iter-target", "display-arg", "method-arg", "return"]
+    kind = rng.choice(kinds)
+    pre = []
+    if kind == "decl":
+        mark = Decl([(False, [fresh("Vd")], Arith("+", Num(1), fault))])
+    elif kind == "assign":
+        x = fresh("Va")
+        pre = [Decl([(False, [x], Num(0))])]
+        mark = ExprS(AssignVar(x, fault))
+    elif kind == "expr":
+        mark = ExprS(fault)
+    elif kind == "if-cond":
+        mark = Branch(Logic("eq", fault, Num(0)), [Display(Num(1))] + fillers(2), [], None)
+    elif kind == "while-cond-first":
+        mark = While(Logic("eq", fault, Num(0)), [Display(Num(1))] + fillers(2))
+    elif kind == "while-cond-later":
+        # the condition is fine on the first passes and faults when it is tested again after the body has run
+        i = fresh("Vi")
+        pre = [Decl([(False, [i], Num(0))])]
+        fault, code = Arith("/", Num(10), Arith("-", Num(rng.randrange(1, 4)), Var(i))), 90
+        mark = While(Logic("gt", fault, Num(0)), fillers(2) + [ExprS(AssignVar(i, Arith("+", Var(i), Num(1))))] + fillers(2))
+    elif kind == "iter-target":
+        mark = Iter(Arr([Num(1), fault]), [], [Display(Num(1))])
+    elif kind == "display-arg":
+        mark = Display(Num(1), fault)
+    elif kind == "method-arg":
+        x = fresh("Vl")
+        pre = [Decl([(False, [x], Arr([]))])]
+        mark = ExprS(Method(Var(x), [("后增", [fault])]))
+    else:
+        mark = Return(Arith("*", Num(2), fault))
+    stmts = pre + [mark]
+    calls = []          # call statements from the fault outwards
+    defs = []
+    for _ in range(rng.randrange(0, 4)):
+        w = rng.choice(["if", "while", "iter", "func", "func", "method"])
+        inner = fillers(2) + stmts + fillers(1)
+        if w == "if":
+            stmts = [Branch(Logic("eq", Num(1), Num(1)), inner, [], None)]
+        elif w == "while":
+            g = fresh("Vg")
+            stmts = [Decl([(False, [g], Num(0))]), While(Logic("lt", Var(g), Num(1)), [ExprS(AssignVar(g, Num(1)))] + inner)]
+        elif w == "iter":
+            stmts = [Iter(Arr([Num(7)]), [], inner)]
+        elif w == "func":
+            f = fresh("Fp")
+            defs.append(Func(f, [], inner, []))
+            c = rng.choice([ExprS(Call(f, [])), Decl([(False, [fresh("Vr")], Arith("+", Call(f, []), Num(1)))]), Display(Call(f, []))])
+            calls.append(c)
+            stmts = [c]
+        else:
+            cn, mn = fresh("Cp"), fresh("Mp")
+            defs.append(Class(cn, [("Pa", Num(1))], [(mn, [], inner, [])]))
+            o = fresh("Vo")
+            c = ExprS(Method(Var(o), [(mn, [])]))
+            calls.append(c)
+            stmts = [Decl([(False, [o], New(cn, []))]), c]
+    body = defs + fillers(3) + stmts + fillers(2)
+    return ([], body, []), mark, calls, code, kind
+
+
+def run_planted(chk, n):
+    rng = chk.rng
+    import random as _r
+    cases = []
+    for _ in range(n):
+        prog, mark, calls, code, kind = planted_program(rng)
+        txt, r = G.render(prog, None, _r.Random(rng.random()))
+        want = [r.line_of[id(c)] + 1 for c in reversed(calls)] + [r.line_of[id(mark)] + 1]
+        cases.append((prog, txt, want, code, kind))
+    outs = core.harness("sem", "run", [{"src": c[1], "mode": "vm", "inputs": {}} for c in cases], timeout_ms=8000)
+    for (prog, txt, want, code, kind), o in zip(cases, outs):
+        chk.count(["planted", txt])
+        chk.dist("planted:%s:depth%d" % (kind, len(want) - 1))
+        e = o.get("err") or {}
+        # a fault inside a method reaches the caller as an exception of the default class (no code)
+        reported = o.get("kind") == "error" and (e.get("code") == code or (len(want) > 1 and e.get("class") == "goexception"))
+        if not reported:
+            chk.violation("a planted fault (%s, code %d) was not reported: %s; program:\n%s" % (kind, code, str(o)[:160], txt[:400]),
+                          "planted:not-reported", {"kind": "planted", "text": txt, "observed": o, "expected_code": code})
+            continue
+        disp = e.get("display", "")
+        got = chain_lines(disp)
+        src_lines = re.split(r"\r\n|\n|\r", txt)
+        quoted = [l[4:] for l in disp.split("\n") if l.startswith("    ")]
+        wantq = [src_lines[k - 1].strip() for k in want]
+        if got != want or [q.strip() for q in quoted[:len(wantq)]] != wantq:
+            chk.violation("a runtime fault planted in a %s is reported at lines %s (quoting %s); the statement that faults and the calls "
+                          "leading to it are on lines %s (%s); program:\n%s" % (kind, got, quoted, want, wantq, txt[:500]),
+                          "planted:" + ("line" if got != want else "quote"),
+                          {"kind": "planted", "text": txt, "fault_kind": kind, "reported_lines": got, "expected_lines": want,
+                           "display": disp})
+
+
 def run(chk, replay=None):
     rng = chk.rng
     quick = chk.tier == "quick"
@@ -165,7 +287,12 @@ def run(chk, replay=None):
                         Decl([(False, ["Y"], Call("H", [Num(0)]))])], []), None, "witness"))
     semprop.run_property(chk, "C18", "c18", profiles, 120, 1500, extra_programs=extra, decorate=True, extra_check=display_matches_chain,
                          what="reported line / call chain differs from the place the error arose")
-    chk.coverage["rule"] = ("(a) sources of 0-6 lines (declarations, two-line texts incl. a break right after a backtick, multi-line and one-line "
+    run_planted(chk, 150 if quick else 3000)
+    chk.coverage["rule"] = ("(c) programs with one fault planted in a declaration, assignment, expression statement, 如果 / 每当 condition "
+                            "(first and later passes), 遍历 target, call or method argument, 输出, nested 0-3 levels deep in blocks, methods "
+                            "and object methods, decorated with comments / multi-line texts: reported lines and quoted texts must be those "
+                            "of the faulting statement and of the calls leading to it (expectation by construction, not from the model); "
+                            "(a) sources of 0-6 lines (declarations, two-line texts incl. a break right after a backtick, multi-line and one-line "
                             "comments, blank lines, a branch) with one syntax fault of 3 kinds planted after them, LF/CRLF/CR line ends; "
                             "(b) generated programs with methods, types, raise points and handlers, decorated with comments and multi-line texts; "
                             "distinct = distinct source text")
